@@ -9,9 +9,9 @@ package main
 
 import (
 	"fmt"
-	"os"
 	"go/token"
 	"go/types"
+	"os"
 	"sort"
 	"strings"
 
@@ -25,22 +25,22 @@ type fsmInput struct {
 }
 
 type fsmPoint struct {
-	vals    []int64 // one per input
-	events  []string
-	exit    string
+	vals   []int64 // one per input
+	events []string
+	exit   string
 }
 
 type fsm struct {
-	symNext bool // also report the next value of loop-carried variables that are not finite-domain inputs
-	whole   bool // evaluate from the loop header to the function's exits (not only one trip through the body)
-	rets    []*ssa.Return
-	c       *Ctx
-	f       *ssa.Function
-	header  *ssa.BasicBlock
-	inputs  []fsmInput
-	byteIn  int // index of the byte input in inputs, -1 if none
-	points  []*fsmPoint
-	err     string
+	symNext       bool // also report the next value of loop-carried variables that are not finite-domain inputs
+	whole         bool // evaluate from the loop header to the function's exits (not only one trip through the body)
+	rets          []*ssa.Return
+	c             *Ctx
+	f             *ssa.Function
+	header        *ssa.BasicBlock
+	inputs        []fsmInput
+	byteIn        int // index of the byte input in inputs, -1 if none
+	points        []*fsmPoint
+	err           string
 	pendingOpaque ssa.Value
 	condDesc      []string
 }
@@ -1180,12 +1180,13 @@ func rulesNewickTokenizer(c *Ctx, r *Report) {
 
 // rulesNewickParser (PARSE): the transition function of the Newick tree parser over (parser state, kind of the
 // next token, nesting depth is 1, number parses), compared with the Newick grammar up to renaming of the states:
-//   '('  only where a node may start: add a child to the current node and descend;
-//   ')'  not right after ':' and not at the top level: ascend, children done;
-//   ','  not right after ':' and not at the top level: add a sibling (child of the parent), replace the current node;
-//   ':'  not after ':' or a length: a branch length follows;
-//   ';'  only at the top level and not right after ':': the tree is complete and returned;
-//   text: a name where a node may start or after its children (once), a number after ':' (once), else an error.
+//
+//	'('  only where a node may start: add a child to the current node and descend;
+//	')'  not right after ':' and not at the top level: ascend, children done;
+//	','  not right after ':' and not at the top level: add a sibling (child of the parent), replace the current node;
+//	':'  not after ':' or a length: a branch length follows;
+//	';'  only at the top level and not right after ':': the tree is complete and returned;
+//	text: a name where a node may start or after its children (once), a number after ':' (once), else an error.
 func rulesNewickParser(c *Ctx, r *Report) {
 	f := c.role("newick.read")
 	if f == nil {
@@ -1273,7 +1274,7 @@ func rulesNewickParser(c *Ctx, r *Report) {
 				ignore = append(ignore, i)
 			}
 		case strings.HasPrefix(desc, "(\"") && strings.Contains(desc, "\" == extract:0(call:"):
-			t := desc[2:strings.Index(desc[2:], "\"")+2]
+			t := desc[2 : strings.Index(desc[2:], "\"")+2]
 			tokIdx[t] = i
 		case strings.Contains(desc, "builtin:len(") && strings.Contains(desc, "1"):
 			depth = append(depth, depthCond{i, strings.Contains(desc, "==")})
